@@ -397,6 +397,49 @@ theorem lru_history_evicts_oldest (cfg : LRUCache.Cfg) (T0 : Int) (ops : List Op
       rw [e] at this
       omega)
 
+theorem mem_eraseKey_of_ne (es : List (String × Int)) (k : String) (p : String × Int) (hp : p ∈ es) (hne : p.1 ≠ k) :
+    p ∈ eraseKey es k := by
+  induction es with
+  | nil => cases hp
+  | cons x rest ih =>
+    obtain ⟨k', e⟩ := x
+    simp only [eraseKey]
+    by_cases hk : k = k'
+    · simp only [hk, if_true]
+      cases hp with
+      | head => exact absurd hk.symm hne
+      | tail _ h => exact h
+    · simp only [hk, if_false]
+      cases hp with
+      | head => exact List.mem_cons_self
+      | tail _ h => exact List.mem_cons_of_mem _ (ih h)
+
+/-- Delete removes exactly the named key and keeps the relative order (oldest first) of all other entries:
+after any history, the entries after `Delete k` are a sublist of the entries before (same order), every entry of
+another key is still there, and `k` is gone.  Together with `lru_history_evicts_oldest` (whose histories include
+deletes) this fixes which key the next size eviction takes: the oldest remaining one. -/
+theorem lru_delete_keeps_order (cfg : LRUCache.Cfg) (ops : List Op) (k : String) :
+    let s := LRUCache.run cfg ops
+    (LRUCache.delete s k).entries.Sublist s.entries ∧
+    (∀ p ∈ s.entries, p.1 ≠ k → p ∈ (LRUCache.delete s k).entries) ∧
+    find (LRUCache.delete s k).entries k = none ∧
+    LRUCache.has (LRUCache.delete s k) 0 k = false := by
+  have hg := (run_goodLRU cfg ops).1
+  have hnk : k ∉ keys (eraseKey (LRUCache.run cfg ops).entries k) := eraseKey_not_key hg.nodup k
+  have hfind : find (eraseKey (LRUCache.run cfg ops).entries k) k = none := by
+    cases h : find (eraseKey (LRUCache.run cfg ops).entries k) k with
+    | none => rfl
+    | some e =>
+      exact absurd (List.mem_map.mpr ⟨(k, e), find_some_mem h, rfl⟩) hnk
+  refine ⟨eraseKey_sublist _ _, fun p hp hne => mem_eraseKey_of_ne _ _ _ hp hne, hfind, ?_⟩
+  simp only [LRUCache.has, LRUCache.delete, hfind]
+
+/-- non-vacuity, delete then evict: limit 3, `a b c` cached, `a` deleted, then `d` and `e` added: the eviction
+takes `b` (oldest remaining), not `c`. -/
+example : (LRUCache.run { size := 3, ttl := 1000 }
+    [.add 0 "a", .add 1 "b", .add 2 "c", .delete "a", .add 3 "d", .add 4 "e"]).entries
+    = [("c", 1002), ("d", 1003), ("e", 1004)] := by decide
+
 /-- non-vacuity: a history with a refresh, an expiry and a size eviction -/
 def demo : List Op := [.add 0 "a", .add 1 "b", .add 2 "a", .add 3 "c", .add 30 "d"]
 example : mono 0 demo := by decide
